@@ -144,6 +144,22 @@ def solver_requests(ctx):
         y0 = rng.vec(prob.m, 1.0); S0 = [rng.choice([0.5, 1.0, 4.0, 10.0]) for _ in range(prob.m)]
         reqs.append((scenario, crit, budget, sl.Request(prob, x0, y0, S0, solver, direction, "inner", params,
                                                        always=rng.random() < 0.7, tol=tol, **kw)))
+    # exhaustive stop injection on two fixed problems with the criteria that use grad psi(x_hat): a request landing inside the line search
+    # (after the safe step, after a step-size backtrack, ...) must not leave a stale gradient behind
+    frng = Rng(99)
+    fixed = []
+    pa, _ = sl.gen_problem(frng, "nonconvex", n=2, m=1); pa.Clb, pa.Cub = [-2.0, -2.0], [2.0, sl.INF]; pa.Dlb, pa.Dub = [-sl.INF], [0.5]
+    pb, _ = sl.gen_problem(frng, "qp", n=3, m=2)
+    for prob in (pa, pb):
+        for solver, direction in (("panoc", "lbfgs"), ("zerofpr", "lbfgs"), ("panoc", "struclbfgs")):
+            for crit in ("ApproxKKT", "ApproxKKT2", "Ipopt"):
+                for L0 in (None, "0.05"):
+                    last = ctx.n(45, 120)
+                    for j in range(0, last):
+                        params = ["solver.max_iter=30", "xcrit=%s" % crit] + (["solver.Lipschitz.L_0=%s" % L0] if L0 else [])
+                        x0 = [1.5, -0.5, 0.75][:prob.n]
+                        reqs.append(("stopscan", crit, 30, sl.Request(prob, x0, [0.5, -0.25][:prob.m], [2.0, 1.0][:prob.m], solver, direction, "inner", params,
+                                                                     always=False, tol=1e-9, stop_at_eval=j)))
     return reqs
 
 def run_oracle(ctx, scenario, crit, req, o):
